@@ -172,6 +172,13 @@ def parse_out(outdir):
     return res, wf
 
 
+SINGULAR = "singular point (zoo/nan)"
+
+
+def singular(e):
+    return isinstance(e, sp.Basic) and e.has(sp.zoo, sp.nan, sp.oo, -sp.oo)
+
+
 def compare(case, model_txt):
     """-> None if implementation and model agree, else a description"""
     e = M.build(case["expr"])
@@ -186,6 +193,10 @@ def compare(case, model_txt):
             return f"free_symbols: implementation {got}, model {sorted(set(mod))}"
         return None
     want = M.build(mod)
+    if singular(got) or singular(want):
+        # a 0**negative appeared: SymPy's arithmetic with zoo/nan is not associative, so differently
+        # nested but equal sums legitimately print differently; outside the sum reading anyway
+        return SINGULAR
     if not M.same(got, want):
         return f"{op}: implementation {str(got)[:300]} ; model {str(want)[:300]}"
     return None
@@ -196,7 +207,7 @@ def main():
         doc = json.load(open(sys.argv[2]))
         c = doc["replay"]["case"]
         why = compare(c, c["model_output"])
-        print(json.dumps({"still_fails": why is not None, "why": why}))
+        print(json.dumps({"still_fails": why not in (None, SINGULAR), "why": why}))
         return
     if sys.argv[1] == "gen":
         seed, n, outdir = int(sys.argv[2]), int(sys.argv[3]), sys.argv[4]
@@ -222,6 +233,9 @@ def main():
                                  "case": c})
                 continue
             why = compare(c, res[i])
+            if why == SINGULAR:
+                kinds["skipped_singular_point"] = kinds.get("skipped_singular_point", 0) + 1
+                continue
             if why and wf.get(i) != "true":
                 # malformed input (duplicate index symbol / pool mentioning an index): no theorem speaks
                 # about it and it is outside the property's quantifier; recorded, not a violation
